@@ -64,6 +64,12 @@ def gen_definition(rng, k):
         a, b = rng.choice(procs), rng.choice(procs)
         d = rng.sample(letters, rng.randint(1, len(letters)))
         flows.append(dict(frm=a, to=b, dims=d, override=(f"special flow {i}" if rng.random() < 0.3 else None)))
+    if flows and rng.random() < 0.4:
+        # parallel flows: the same source, target and dimensions as an earlier definition, told apart by the overriding name only
+        f0 = flows[rng.randrange(len(flows))]
+        flows.append(dict(f0, override=f"parallel flow {len(flows)}"))
+        if rng.random() < 0.5:
+            flows.append(dict(f0, override=f"third flow {len(flows)}"))
     stocks = []
     for i in range(rng.randint(0, 3)):
         cls = rng.randrange(3)
